@@ -1,6 +1,7 @@
 package symgo
 
 import (
+	"go/types"
 	"net"
 	"net/textproto"
 	"strconv"
@@ -146,4 +147,19 @@ func init() {
 	}
 	reg("net/textproto.CanonicalMIMEHeaderKey", canon)
 	reg("net/http.CanonicalHeaderKey", canon)
+}
+
+// The real network does not exist for a harness: every connection the code under test is meant to open goes through
+// a dial function the harness supplies. A call that reaches the operating system's dialer instead is answered like
+// a machine without network would answer it - an error - and noted, so that the harness's own assertions (which
+// connection was opened, through which dial function) decide; natively the sandbox has no network either.
+func init() {
+	unreachable := func(in *Exec) value {
+		in.W.X.note("a real network dial was attempted (answered: network is unreachable)")
+		var v value = structure{in.mkStr("dial: network is unreachable (no network in the model)")}
+		return tuple{iface{}, iface{t: types.NewPointer(in.namedType("errors", "errorString")), v: &v}}
+	}
+	for _, name := range []string{"(*net.Dialer).DialContext", "(*net.Dialer).Dial", "net.Dial", "net.DialTimeout"} {
+		reg(name, func(in *Exec, _ *frame, a []value) value { return unreachable(in) })
+	}
 }
